@@ -186,6 +186,22 @@ H_ = '<svg xmlns="http://www.w3.org/2000/svg" viewBox="0 0 10 10">'
 CORPUS_PAIRS = [
     (H_ + '<defs><path id="a" d="M0,0 L5,0 L5,5 Z"/></defs><use xlink:href="#a"/></svg>',
      H_ + '<defs><path id="a" d="M0,0 L5,0 L5,5 Z"/></defs><!-- xmlns:xlink --><use xlink:href="#a"/></svg>'),
+    (H_ + '<defs><path id="a" d="M0,0 L5,0 L5,5 Z"/></defs><use xlink:href="#a"/></svg>',
+     H_ + '<defs><!-- the old header:\n  <svg xmlns="http://www.w3.org/2000/svg"\n       xmlns:xlink="http://www.w3.org/1999/xlink">\n--><path id="a" d="M0,0 L5,0 L5,5 Z"/></defs><use xlink:href="#a"/></svg>'),
+    # an attribute-less wrapper around one of several users of a bounding-box gradient under one transform: the traversal
+    # order of the users changes, what each of them is painted with must not
+    (H_ + '<defs><linearGradient id="g"><stop offset="0" stop-color="red"/><stop offset="1" stop-color="blue"/></linearGradient></defs>'
+          '<g transform="translate(3 4) scale(2)"><rect width="10" height="4" fill="url(#g)"/><circle cx="20" cy="10" r="3" fill="url(#g)"/></g></svg>',
+     H_ + '<defs><linearGradient id="g"><stop offset="0" stop-color="red"/><stop offset="1" stop-color="blue"/></linearGradient></defs>'
+          '<g transform="translate(3 4) scale(2)"><rect width="10" height="4" fill="url(#g)"/><g><circle cx="20" cy="10" r="3" fill="url(#g)"/></g></g></svg>'),
+    (H_ + '<defs><linearGradient id="g"><stop offset="0" stop-color="red"/><stop offset="1" stop-color="blue"/></linearGradient></defs>'
+          '<g transform="translate(3 4) scale(2)"><rect width="10" height="4" fill="url(#g)"/><circle cx="20" cy="10" r="3" fill="url(#g)"/></g></svg>',
+     H_ + '<defs><linearGradient id="g"><stop offset="0" stop-color="red"/><stop offset="1" stop-color="blue"/></linearGradient></defs>'
+          '<g transform="translate(3 4) scale(2)"><g><rect width="10" height="4" fill="url(#g)"/></g><circle cx="20" cy="10" r="3" fill="url(#g)"/></g></svg>'),
+    (H_ + '<defs><path id="a" d="M0,0 L5,0 L5,5 Z"/></defs><use xlink:href="#a"/></svg>',
+     H_ + '<metadata><r:RDF xmlns:r="http://www.w3.org/1999/02/22-rdf-syntax-ns#" xmlns:xlink="http://www.w3.org/1999/xlink"/></metadata><defs><path id="a" d="M0,0 L5,0 L5,5 Z"/></defs><use xlink:href="#a"/></svg>'),
+    (H_ + '<defs><path id="a" d="M0,0 L5,0 L5,5 Z"/></defs><use xlink:href="#a"/></svg>',
+     H_ + '<?note xmlns:xlink is not declared here?><defs><path id="a" d="M0,0 L5,0 L5,5 Z"/></defs><use xlink:href="#a"/></svg>'),
     (H_ + '<rect width="5" height="5"/></svg>', H_ + '<foo xmlns=""/><rect width="5" height="5"/></svg>'),
     (H_ + '<g opacity="0.5"><rect width="5" height="5"/><circle r="2"/></g></svg>',
      H_ + '<g opacity="0.5"><rect width="5" height="5"/><bar xmlns=""><rect xmlns="http://www.w3.org/2000/svg" width="1" height="1"/></bar><circle r="2"/></g></svg>'),
